@@ -1,5 +1,5 @@
 SPECIFICATION Spec
-CONSTANTS Variant = "ok"  Slots = 3  Guard = "or"  Pairs = TRUE
+CONSTANTS Variant = "ok"  Slots = 3  Guard = "and"  Pairs = TRUE
   Ws <- QW  Gs <- QG  Des <- QDe  Wps <- QWp  CpA <- QA  CpOm <- QOm  CpGa <- QGa  CpPh <- QPh  Xs <- QX
 INVARIANT TypeOK
 INVARIANT AcceptsWithinLimit
